@@ -353,11 +353,14 @@ def shouldCutoff (env : Env) (n : Nat) (old new : Val) : M Bool := do
 def edgeOnChange (env : Env) (e : Nat) (edge : ExpertEdge) : M Unit := do
   match edge.cb with
   | none => pure ()
-  | some cb =>
+  | some _ =>
     -- (repaired D7) only when the child has a value
     match (← get).value env edge.child with
     | none => pure ()
-    | some v => logEv (.inv s!"cb{cb}" e [v] s!"dep{edge.dep}")
+    | some v =>
+      let er ← getExpert e
+      logEv (.inv s!"cb" er.node [v] s!"d{edge.dep}")
+      modExpert e fun x => { x with slots := (edge.dep, v) :: x.slots.filter (·.1 != edge.dep) }
 
 def runEdgeCallback (env : Env) (e : Nat) (childIndex : Nat) : M Unit := do
   let er ← getExpert e
@@ -368,9 +371,7 @@ def runEdgeCallback (env : Env) (e : Nat) (childIndex : Nat) : M Unit := do
 
 def observabilityChange (e : Nat) (nowObservable : Bool) : M Unit := do
   let er ← getExpert e
-  match er.obsChange with
-  | some oc => logEv (.note s!"obschange{oc} {nowObservable}")
-  | none => pure ()
+  logEv (.note s!"obschange n{er.node} {nowObservable}")
   if !nowObservable then
     modExpert e fun x => { x with willFireAllCallbacks := true, numInvalidChildren := 0 }
 
